@@ -420,7 +420,7 @@ theorem run_from_stage2 {g : E2E.Cfg} (ok : Cfg2 g) : ∀ (A : Nat) (c : Conn) (
     obtain ⟨hsame, hph, hsc, hstop, hmx, hsg, hwk⟩ := prePoll_same c n hsegs
     have hst0 := hst.cong hph hsc hstop hmx hsame
     obtain ⟨c', r, hh, hl, ho⟩ := stage_poll2 ok hst0 (hsame.em.trans hem)
-    have hpoll := hh.poll (F := 100000) (by rw [hsame.input]; exact hlen)
+    have hpoll := hh.pollT (by rw [hsame.input]; exact hlen)
     have hans0 : ans (prePoll c n none).env.tr = ans c.env.tr := by unfold ans; rw [hsame.rd, hsame.wr]
     rw [runTask_succ, hpoll]
     cases ho with
@@ -437,7 +437,7 @@ theorem run_from_stage2 {g : E2E.Cfg} (ok : Cfg2 g) : ∀ (A : Nat) (c : Conn) (
     obtain ⟨hsame, hph, hsc, hstop, hmx, hsg, hwk⟩ := prePoll_same c n hsegs
     have hst0 := hst.cong hph hsc hstop hmx hsame
     obtain ⟨c', r, hh, hl, ho⟩ := stage_poll2 ok hst0 (hsame.em.trans hem)
-    have hpoll := hh.poll (F := 100000) (by rw [hsame.input]; exact hlen)
+    have hpoll := hh.pollT (by rw [hsame.input]; exact hlen)
     have hans0 : ans (prePoll c n none).env.tr = ans c.env.tr := by unfold ans; rw [hsame.rd, hsame.wr]
     have hlen' : 4 * c'.env.tr.input.length + 17 ≤ 100000 := by
       have := hl.ts.inp
